@@ -36,7 +36,10 @@ COMPONENTS = {
     "stub": ["SimDB mapping (the disk)", "writer / batch / operator client actors"],
     "model": ["RefMPT: independent canonical MPT with per-node reference multiplicity"],
 }
-ASSUMPTIONS = ["the pruning trie owns its database and starts empty (class docstring, C06 statement)"]
+ASSUMPTIONS = [
+    "the pruning trie owns its database and starts empty (class docstring, C06 statement)",
+    "a reference-count table handed to the constructor is kept up to date in place (squash_changes documents this), so a caller may keep it and hand it to the handle it re-opens",
+]
 
 
 class World(HWorld):
@@ -94,7 +97,10 @@ class World(HWorld):
         live = self.ref(h).body
         dead = [x for x in getattr(self, "_seen_nodes", ()) if x not in live]
         for x in dead[: 3 if self.cfg.get("ask_dead") else 0]:
-            n = h.trie.ref_count[x]
+            try:
+                n = h.trie.ref_count[x]
+            except KeyError:
+                n = 0  # a table without default entries answers "not counted" this way
             if n != 0:
                 self.viol("refcount-mismatch", f"ref_count[{x.hex()}] == {n} for a node that is not part of the current trie")
             self.st.probe("dead-node-count-asked-by-subscript")
